@@ -1,32 +1,49 @@
 #!/usr/bin/env python3
 """Re-run every check against every seeded change (scratch copies; /repo untouched) and refresh seeded/*/meta.json
-(`verified.caught_by`) and seeded/SUMMARY.md."""
-import glob, json, os, subprocess, sys
-props = ["C%02d" % i for i in range(1, 18)]
+(`verified.caught_by`) and seeded/SUMMARY.md.   tools/seed_recheck.py [name-prefix ...]"""
+import glob, json, os, subprocess, sys, tempfile, shutil, re
+only = sys.argv[1:]
 rows = []
 for d in sorted(glob.glob("/verif/seeded/C*-*")):
+    name = os.path.basename(d)
     meta = json.load(open(os.path.join(d, "meta.json")))
-    r = subprocess.run(["/verif/tools/mut", ",".join(props), "--patch", os.path.join(d, "patch.diff")], capture_output=True, text=True)
-    caught, cur = {}, None
-    for line in r.stdout.splitlines():
-        if line.startswith("[C"):
-            cur = line[1:4]
-            if "exit=1" in line:
-                caught[cur] = []
-            elif "exit=0" not in line:
-                caught[cur] = ["ERROR " + line]
-        elif cur in caught and line.strip().startswith("violated"):
-            caught[cur].append(line.strip()[:300])
+    if only and not any(name.startswith(o) for o in only):
+        rows.append((name, meta.get("summary", "")[:160].replace("|", "/"), meta.get("verified", {}).get("caught_by", {}), True))
+        continue
+    t = tempfile.mkdtemp(prefix="verif-seed-")
+    applies = True
+    try:
+        for x in ("src", "Cargo.toml", "Cargo.lock"):
+            s = os.path.join("/repo", x)
+            (shutil.copytree if os.path.isdir(s) else shutil.copy)(s, os.path.join(t, x))
+        r = subprocess.run(["patch", "-s", "-p1", "-d", t, "-i", os.path.join(d, "patch.diff")], capture_output=True, text=True)
+        applies = r.returncode == 0
+        caught = {}
+        if applies:
+            r = subprocess.run(["/verif/check", "all"], env=dict(os.environ, VERIF_REPO=t), capture_output=True, text=True)
+            last = []
+            for line in r.stdout.splitlines():
+                if line.strip().startswith("violated:"):
+                    last.append(line.strip()[:300])
+                m = re.match(r"^VIOLATION property=(C\d+)", line)
+                if m:
+                    caught.setdefault(m.group(1), []).extend(last)
+                    last = []
+                if line.startswith("ERROR") or "Traceback" in line:
+                    caught.setdefault("ERROR", []).append(line[:200])
+    finally:
+        shutil.rmtree(t, ignore_errors=True)
     meta.setdefault("verified", {})["caught_by"] = caught
+    meta["verified"]["patch_applies_to_current_repo"] = applies
     json.dump(meta, open(os.path.join(d, "meta.json"), "w"), indent=1, ensure_ascii=False)
-    rows.append((os.path.basename(d), meta.get("summary", "")[:160].replace("|", "/"), caught))
-    print(os.path.basename(d), sorted(caught), flush=True)
+    rows.append((name, meta.get("summary", "")[:160].replace("|", "/"), caught, applies))
+    print(name, "applies" if applies else "DOES NOT APPLY", sorted(caught), flush=True)
 with open("/verif/seeded/SUMMARY.md", "w") as fh:
     fh.write("| seed | change | reported by | first report |\n|---|---|---|---|\n")
-    for name, summ, caught in rows:
+    for name, summ, caught, applies in rows:
         first = ""
         for k in sorted(caught):
             if caught[k]:
                 first = caught[k][0].replace("violated: ", "").replace("|", "/")[:150]
                 break
-        fh.write("| %s | %s | %s | %s |\n" % (name, summ, ", ".join(sorted(caught)) or "**none**", first))
+        fh.write("| %s | %s | %s | %s |\n" % (name, summ, ", ".join(sorted(caught)) or ("**none**" if applies else "patch no longer applies"), first))
